@@ -82,6 +82,17 @@ def W_HIST(q, t):
     return dict(name='setter-histories', gen=w_hist, n_quick=q, n_thorough=t)
 
 
+import gen_host
+
+
+def W_HOST(q, t, **kw):
+    return dict(name='host-lattice', gen=gen_host.host_workload, n_quick=q, n_thorough=t, **kw)
+
+
+def W_SIMD(q, t, **kw):
+    return dict(name='simd-offsets', gen=gen_host.simd_workload, n_quick=q, n_thorough=t, **kw)
+
+
 MC = 'model_checking'
 ASSUME_URL = ['the TLA+ transcription of the WHATWG URL Standard (spec/*.tla) is the oracle; it is itself validated against '
               'tests/wpt/urltestdata.json and setters_tests.json by the spec-vs-vectors run (bin/spec-selftest)',
@@ -90,7 +101,7 @@ ASSUME_URL = ['the TLA+ transcription of the WHATWG URL Standard (spec/*.tla) is
 
 PROPS = {
     'C01': dict(level=MC, rule=RULE, assumptions=ASSUME_URL, models=[M_PARSER],
-                workloads=[W_MC_REPLAY, W_WPT_URL, W_PARSE(2500, 60000)]),
+                workloads=[W_MC_REPLAY, W_WPT_URL, W_PARSE(2500, 60000), W_SIMD(1500, 40000)]),
     'C03': dict(level=MC, rule=RULE, assumptions=ASSUME_URL,
                 workloads=[W_WPT_SET, W_HIST(700, 20000)]),
     'C04': dict(level=MC, rule=RULE, assumptions=ASSUME_URL,
@@ -110,7 +121,7 @@ PROPS = {
                 workloads=[dict(name='limit-windows', gen=gen_url.limit_workload, n_quick=450, n_thorough=12000),
                            dict(name='canparse-targeted', gen=gen_url.canparse_workload, n_quick=600, n_thorough=15000)]),
     'C10': dict(level=MC, rule=RULE, assumptions=ASSUME_URL,
-                workloads=[W_PARSE(1500, 30000), W_HIST(500, 10000)]),
+                workloads=[W_HOST(3000, 100000), W_PARSE(800, 30000), W_HIST(300, 10000)]),
     'C11': dict(level=MC, rule=RULE + '; the byte sweep is exhaustive over (byte value that can occur in valid UTF-8) x (component using a '
                 'percent-encode set) x (4 contexts)', assumptions=ASSUME_URL + [
                     'the 13 byte values that cannot occur in valid UTF-8 (C0 C1 F5..FF) are exercised only by the C02 check',
@@ -221,3 +232,154 @@ PROPS['C16'] = dict(level=MC, rule=RULE_IDNA, assumptions=ASSUME_IDNA, models=[M
 # ---- C13: thread safety (spec/TablesInit.tla, harness/sched_main.cpp, lib/c13.py)
 import c13
 PROPS['C13'] = dict(level=MC, custom=c13.run)
+
+
+# ---- C02: memory-safe, exception-free, terminating on arbitrary bytes (exploration; DESIGN.md 5/C02, 9)
+import gen_bytes
+
+RULE_BYTES = ('cases = byte strings (fixed troublemakers + seeded random / structure-aware mutations, incl. malformed UTF-8, NUL, empty, '
+              '16 KiB hosts) each fed to the whole battery of public entry points (parse with/without base for both URL types, can_parse, '
+              'every setter and clear_*, URLSearchParams ops, idna to_ascii/to_unicode, URLPattern construction + test/exec/match, '
+              'href_from_file, the C API) on sanitizer-instrumented builds, plus the recorded histories of the other checks on the '
+              'ASan+UBSan build; every battery event is non-trivial (it carries 30 outcome codes); distinct = distinct '
+              '(byte string, rotation index, outcome codes)')
+ASSUME_BYTES = ['memory safety / UB / leaks are observed by ASan+UBSan+LSan (and the terminate / signal handlers), not by the specification: '
+                'a fault on an input the generators do not produce is missed (level: exploration)',
+                'the TLA+ trace specification (trace/TraceBytes.tla) contributes totality: one action per event that accepts ANY byte string and '
+                'requires the complete battery to have returned, plus relations that hold without the valid-UTF-8 precondition',
+                'URLPattern is exercised with the std::regex provider (the only one that builds offline); inputs are capped at 16 KiB + 8 bytes']
+_BMOD = dict(module='TraceBytes', main='bytes_main.cpp')
+
+
+def W_BYTES(q, t, cfgs_q, cfgs_t=None, name='byte-battery'):
+    return dict(name=name, gen=gen_bytes.bytes_workload, n_quick=q, n_thorough=t, configs_quick=cfgs_q, configs_thorough=cfgs_t or cfgs_q, **_BMOD)
+
+
+PROPS['C02'] = dict(level='exploration', rule=RULE_BYTES, assumptions=ASSUME_BYTES,
+                    workloads=[W_BYTES(1500, 60000, ['asan'], ['asan', 'devchecks']),
+                               dict(name='setter-histories-sanitized', gen=w_hist, n_quick=250, n_thorough=8000, configs=['asan']),
+                               dict(name='grammar-parse-sanitized', gen=w_parse, n_quick=600, n_thorough=20000, configs=['asan']),
+                               W_P_MIXED_SAN,
+                               WI('fragment-random-sanitized', gen_idna.w_frag_random, 800, 30000, configs=['asan'])])
+
+
+# ---- C17: the C API is a faithful, crash-free wrapper (the C handle is driven in lockstep in every URL / params / idna trace)
+RULE_C = ('cases = public calls recorded in lockstep on the C++ object and on the C handle (URL: parse, every setter, clear_*, copy, '
+          'every getter / predicate / offsets after each step, plus the complete getter / setter / predicate sweep on every handle that '
+          'holds a failed parse; URLSearchParams: every operation and iterator; idna; can_parse); non-trivial / distinct as for the URL traces')
+PROPS['C17'] = dict(level=MC, rule=RULE_C, assumptions=ASSUME_URL + [
+    'ownership (each owned string / list / iterator / handle released exactly once, no leak, no double free) is observed on the '
+    'ASan + LSan build: the executors release everything they obtain exactly once, a leak or double free ends the trace with a crashed line',
+    'has_opaque_path / href_size / has_valid_domain have no C accessor and are taken from the C++ twin'],
+    workloads=[W_WPT_URL, W_HIST(400, 12000), W_PARSE(500, 15000),
+               dict(name='setter-histories-sanitized', gen=w_hist, n_quick=150, n_thorough=5000, configs=['asan']),
+               W_P_MIXED, W_P_MIXED_SAN, WI('wpt-idna-inputs', gen_idna.w_wpt_inputs, 1, 0),
+               W_BYTES(600, 20000, ['asan'], name='byte-battery')])
+
+# ---- C18: behaviour does not depend on the build configuration (exploration: differential over configurations)
+RULE_CFG = ('cases = public calls of ONE deterministic workload (grammar parse, setter histories, host lattice, SIMD offsets, '
+            'can_parse-targeted, percent-encode byte sweep) executed on every build configuration; the default configuration\'s trace is '
+            'validated by TLC against the specification, every other configuration\'s trace must be byte-identical to it; non-trivial / '
+            'distinct as for the URL traces (counted on the default configuration)')
+CFGS = ['default', 'ssse3', 'avx512', 'devchecks', 'amalgam']
+
+
+def WD(w):
+    return dict(w, configs=CFGS, differential=True)
+
+
+PROPS['C18'] = dict(level='exploration', rule=RULE_CFG, assumptions=ASSUME_URL + [
+    'configurations: default (SSE2), -mssse3, -mavx512bw -mavx512vl (skipped and reported when the CPU lacks them), '
+    '-DADA_DEVELOPMENT_CHECKS=1 (an assertion abort becomes a crashed line), and the amalgamated ada.cpp / ada.h produced by '
+    'singleheader/amalgamate.py from the current tree; NEON / LSX / RVV kernels cannot be built or run here'],
+    workloads=[WD(W_SIMD(2500, 60000)), WD(W_HOST(2500, 60000)), WD(W_PARSE(1200, 30000)), WD(W_HIST(300, 8000)),
+               WD(dict(name='canparse-targeted', gen=gen_url.canparse_workload, n_quick=1200, n_thorough=30000)),
+               WD(dict(name='byte-sweep', gen=gen_url.pct_workload))])
+
+
+# ---- direction A + B for the object level: MC_UrlObject (all histories of bounded depth), replayed on the real code
+import gen_mc_pool
+OBJ_BEHAVIOURS = []
+_OBJ_PAIRS = [(op, v) for op, vs in gen_mc_pool.OPVALS.items() for v in vs]
+
+
+def collect_obj_behaviours(r, cov, problems):
+    import json as _json
+    n = 0
+    for ln in r['out'].splitlines():
+        if ln.startswith('"@@B '):
+            try:
+                rec = _json.loads(_json.loads(ln)[4:])
+            except ValueError:
+                continue
+            OBJ_BEHAVIOURS.append(rec['h'])
+            n += 1
+    cov['tlc_behaviours_emitted'] = cov.get('tlc_behaviours_emitted', 0) + n
+    if n == 0:
+        problems.append('the MC_UrlObject run emitted no histories for replay')
+
+
+def w_obj_replay(ops, rng, n):
+    """every n-th... no: a seeded sample of n of the TLC-explored histories (all of them when n = 0), each followed by
+    relative references resolved against the resulting object (C03: 'resolves relative references as that state requires')"""
+    hs = OBJ_BEHAVIOURS
+    if n and len(hs) > n:
+        hs = rng.sample(hs, n)
+    for h in hs:
+        ops.reset()
+        ops.parse(1, 0, gen_mc_pool.STARTS[h[0]['i'] - 1])
+        for st in h[1:]:
+            if st['k'] == 'copy':
+                ops.copy(2, 1)
+            else:
+                op, v = _OBJ_PAIRS[st['i'] - 1]
+                ops.set(st['o'], op, v)
+                ops.observe(3 - st['o'])          # the other slot is unchanged (copies are values)
+        ops.reparse(1)
+        for rel in gen_mc_pool.RELS:
+            ops.parse(4, 1, rel)
+
+
+M_OBJ = dict(module='MC_UrlObject', cfg_quick='MC_UrlObject_quick', cfg_thorough='MC_UrlObject_thorough', post=[collect_obj_behaviours],
+             timeout=3000)
+W_OBJ_REPLAY = dict(name='tlc-histories-replayed', gen=w_obj_replay, n_quick=2500, n_thorough=60000, replayable=True)
+for _p in ('C03', 'C07', 'C19'):
+    PROPS[_p].setdefault('models', []).append(M_OBJ)
+    PROPS[_p]['workloads'].insert(0, W_OBJ_REPLAY)
+
+
+# ---- C14 / C15: URLPattern (spec/UrlPattern.tla, trace/TracePattern.tla, harness/pattern_main.cpp)
+import gen_pattern
+
+RULE_PAT = ('cases = URLPattern constructions (constructor string + optional base, or init dictionary; ignoreCase on/off) and test() / exec() '
+            'calls recorded on the real library, each performed twice: as built and with every component forced to a regular expression '
+            '(ADA_URL_ADA_VERIF hook); every event is non-trivial (it carries the eight pattern strings or the full match result); '
+            'distinct = distinct (event kind, arguments)')
+ASSUME_PAT = ['oracle = the TLA+ transcription of the URLPattern Standard (spec/UrlPattern.tla): tokenizer, pattern parser, the '
+              'canonicalisation callbacks DEFINED through spec/UrlParser.tla with the state override the Standard names, generate a pattern '
+              'string, process a URLPatternInit, the constructor-string state machine, and a declarative matcher (the set of all group '
+              'assignments); the specification is itself checked against the 360+ usable vectors of tests/wpt/urlpatterntestdata.json '
+              'in every run (pvec events; a disagreement is a machinery error, never a violation)',
+              'hostname canonicalisation uses a special-scheme dummy URL (domain to ASCII, IPv4, lower-casing), as the WPT vectors require',
+              'custom regular expressions are given a meaning only inside a small grammar (literals, classes, \\d, ., alternation, + * ? +? *?); '
+              'group names are ASCII identifiers; anything else is skipped and counted (skipped_unspecified)',
+              'the regex provider is std::regex (the only provider that builds offline); patterns that nest unbounded quantifiers '
+              '((?:.*)+) are not generated: the backtracking provider needs exponential time on them',
+              'inputs are valid UTF-8']
+_PAT = dict(module='TracePattern', main='pattern_main.cpp')
+
+
+def WPAT(name, gen, q=0, t=0, **kw):
+    return dict(name=name, gen=gen, n_quick=q, n_thorough=t, **dict(_PAT, **kw))
+
+
+W_PAT_VEC = WPAT('spec-vs-wpt-vectors', gen_pattern.w_wpt_vectors, replayable=False)
+W_PAT_WPT = WPAT('wpt-executed', gen_pattern.w_wpt_exec)
+PROPS['C15'] = dict(level=MC, rule=RULE_PAT, assumptions=ASSUME_PAT,
+                    workloads=[W_PAT_VEC, W_PAT_WPT, WPAT('component-values', gen_pattern.w_component_values),
+                               WPAT('constructor-strings', gen_pattern.w_constructor_strings, 1500, 60000),
+                               WPAT('match-grammar', gen_pattern.w_match_grammar, 500, 20000)])
+PROPS['C14'] = dict(level=MC, rule=RULE_PAT, assumptions=ASSUME_PAT,
+                    workloads=[W_PAT_VEC, W_PAT_WPT, WPAT('match-grammar', gen_pattern.w_match_grammar, 2500, 100000),
+                               WPAT('constructor-strings', gen_pattern.w_constructor_strings, 800, 30000),
+                               WPAT('match-grammar-sanitized', gen_pattern.w_match_grammar, 200, 8000, configs=['asan'])])
